@@ -89,6 +89,33 @@ static void fn_positions(Inst& in, size_t which)
       report("to-sandbox", "store-function-pointer-cell", "wrong-representation", mon::fmt("%s: export %s stored as %llu / %llu, table representation is %u", Cfg::name, names[k], (unsigned long long)back, (unsigned long long)ctxr, S::EXPORT_TABLE_BASE + k));
     else n_tosbx_ok++;
   }
+  // a DATA pointer whose pointee is a function pointer (the address of a callback slot in sandbox memory): it is translated
+  // like every other data pointer -- relative to the region, never through the function table -- on every path
+  {
+    const uint64_t off = Inst::CELL2;
+    tainted<fn_t*, S> dp = Wd::tptr<fn_t>(sb, off);
+    mon::ctx("pointer-to-function-pointer/UNSAFE_sandboxed | instance %zu", which);
+    uint64_t rep = static_cast<uint64_t>(dp.UNSAFE_sandboxed(sb));
+    mon::evals();
+    if (rep != off) report("to-sandbox", "UNSAFE_sandboxed", "pointer-to-function-pointer/wrong-representation", mon::fmt("%s: the address base+%llu of a function-pointer cell has the representation %llu", Cfg::name, (unsigned long long)off, (unsigned long long)rep));
+    else n_tosbx_ok++;
+    mon::ctx("pointer-to-function-pointer/invoke-argument-and-result | instance %zu", which);
+    world::glog.clear();
+    uintptr_t backaddr = 0;
+    bool ab = mon::aborts([&] { backaddr = reinterpret_cast<uintptr_t>(Wd::invoke<fn_t*(fn_t*)>(sb, "echo_ptr", dp).UNSAFE_unverified()); });
+    mon::evals(2);
+    if (ab || world::glog.size() != 1 || world::glog[0].a[0] != off)
+      report("to-sandbox", "invoke-argument", "pointer-to-function-pointer/wrong-representation", mon::fmt("%s: base+%llu reached the guest as %llu%s", Cfg::name, (unsigned long long)off, world::glog.empty() ? 0ull : (unsigned long long)world::glog[0].a[0], ab ? " (aborted)" : ""));
+    else n_tosbx_ok++;
+    if (!ab && backaddr != in.base + off) report("to-app", "invoke-result", "pointer-to-function-pointer/wrong-address", mon::fmt("%s: representation %llu came back as base%+lld", Cfg::name, (unsigned long long)off, (long long)(backaddr - in.base)));
+    else n_toapp_ok++;
+    mon::ctx("pointer-to-function-pointer/assign_raw_pointer | instance %zu", which);
+    Wd::wr<P>(sb, Inst::CELL, static_cast<P>(0x5a5a5a5a));
+    bool ab2 = mon::aborts([&] { Wd::tptr<fn_t*>(sb, Inst::CELL)->assign_raw_pointer(sb, reinterpret_cast<fn_t*>(in.base + off)); });
+    mon::evals();
+    if (ab2 || Wd::rd<P>(sb, Inst::CELL) != off) report("to-sandbox", "assign_raw_pointer-volatile", "pointer-to-function-pointer/wrong-representation", mon::fmt("%s: cell holds %llu for base+%llu", Cfg::name, (unsigned long long)Wd::rd<P>(sb, Inst::CELL), (unsigned long long)off));
+    else n_tosbx_ok++;
+  }
   // callback trampoline and null
   Wd::wr<P>(sb, Inst::CELL, static_cast<P>(0x5a5a5a5a));
   *Wd::tptr<int* (*)(int*)>(sb, Inst::CELL) = in.cb;
@@ -102,6 +129,17 @@ static void fn_positions(Inst& in, size_t which)
   *cell = nullptr;
   if (Wd::rd<P>(sb, Inst::CELL) != 0) report("to-sandbox", "store-function-pointer-cell", "null-not-zero", "");
   else n_null_ok++;
+  // a typed null function pointer with the sandbox at hand (argument path, UNSAFE_sandboxed): 0, not a table lookup of null
+  {
+    tainted<fn_t, S> nfp = nullptr;
+    uint64_t r = 1;
+    vsbx_ev.unknown_fn_to_sandbox = 0;
+    bool ab = mon::aborts([&] { r = static_cast<uint64_t>(nfp.UNSAFE_sandboxed(sb)); });
+    mon::evals();
+    if (ab || r != 0 || vsbx_ev.unknown_fn_to_sandbox) report("to-sandbox", "UNSAFE_sandboxed", "null-function-pointer-not-zero", mon::fmt("%s: representation %llu%s%s", Cfg::name, (unsigned long long)r, ab ? " (aborted)" : "", vsbx_ev.unknown_fn_to_sandbox ? "; the backend was asked to translate the null function pointer" : ""));
+    else n_null_ok++;
+    vsbx_ev.unknown_fn_to_sandbox = 0;
+  }
   mon::evals(4);
 }
 
